@@ -13,6 +13,7 @@ import (
 	"fmt"
 	"math/rand"
 	"os"
+	"strings"
 	"sync"
 	"sync/atomic"
 	"time"
@@ -40,6 +41,15 @@ type kv interface {
 	Watch(ctx context.Context, replay bool, key string, fn func(key string, ver uint64)) error
 	HasIndex() bool
 	ByID() bool // does Watch support a single-record filter
+}
+
+// a consumer that is slow to take the first event of its stream (the context says how slow)
+type slowKey struct{}
+
+func slowStart(ctx context.Context) {
+	if d, ok := ctx.Value(slowKey{}).(time.Duration); ok {
+		time.Sleep(d)
+	}
 }
 
 // ---------------- v2 transaction
@@ -87,6 +97,7 @@ func (a *v2tx) Watch(ctx context.Context, replay bool, key string, fn func(strin
 		return err
 	}
 	go func() {
+		slowStart(ctx)
 		for ev := range ch {
 			fn(string(ev.Transaction.ID), ev.Transaction.Version)
 		}
@@ -135,6 +146,7 @@ func (a *v2prop) Watch(ctx context.Context, replay bool, key string, fn func(str
 		return err
 	}
 	go func() {
+		slowStart(ctx)
 		for ev := range ch {
 			fn(string(ev.Proposal.ID), ev.Proposal.Version)
 		}
@@ -183,6 +195,7 @@ func (a *v2cfg) Watch(ctx context.Context, replay bool, key string, fn func(stri
 		return err
 	}
 	go func() {
+		slowStart(ctx)
 		for ev := range ch {
 			fn(string(ev.Configuration.ID), ev.Configuration.Version)
 		}
@@ -234,6 +247,7 @@ func (a *v3cfg) Watch(ctx context.Context, replay bool, key string, fn func(stri
 		return err
 	}
 	go func() {
+		slowStart(ctx)
 		for ev := range ch {
 			fn(string(ev.Configuration.ID.Target.ID), ev.Configuration.Version)
 		}
@@ -280,6 +294,7 @@ func (a *v3tx) Watch(ctx context.Context, replay bool, key string, fn func(strin
 		return err
 	}
 	go func() {
+		slowStart(ctx)
 		for ev := range ch {
 			fn(ev.Transaction.Key, ev.Transaction.Version)
 		}
@@ -399,6 +414,10 @@ func runHistory(kind string, seed int64, nclients, nops int, bound time.Duration
 		h.Watchers[name] = wl
 		n := 0
 		stop := make(chan struct{})
+		if strings.HasPrefix(name, "late") {
+			// a consumer that is slow to take its first event (what it replays): writes made meanwhile must still reach it
+			wctx = context.WithValue(wctx, slowKey{}, 40*time.Millisecond)
+		}
 		err := st.Watch(wctx, replay, key, func(k string, ver uint64) {
 			if bad {
 				n++
@@ -482,6 +501,16 @@ func runHistory(kind string, seed int64, nclients, nops int, bound time.Duration
 	}
 	wg.Wait()
 	badCancel()
+	// a watcher that joins late, replays, and is slow to read: the final writes land while it has not read anything
+	if st.ByID() {
+		if _, err := startWatcher("late-k1-replay", true, "k1", false, 0); err != nil {
+			return nil, err
+		}
+	}
+	if _, err := startWatcher("late-all-replay", true, "", false, 0); err != nil {
+		return nil, err
+	}
+	time.Sleep(5 * time.Millisecond) // the store has read what it replays
 	// final state: one more successful write per original key, then every live good watcher must see it
 	t0 := time.Now()
 	allKeys := append([]string{}, keys...)
@@ -559,6 +588,7 @@ func main() {
 	ops := flag.Int("ops", 8, "operations per client")
 	boundMs := flag.Int("bound", 10000, "milliseconds a live watcher may take to be shown the final state")
 	outp := flag.String("out", "", "output ndjson")
+	from := flag.Int("from", 0, "first history index (re-runs of one history)")
 	flag.Parse()
 	of, err := os.Create(*outp)
 	if err != nil {
@@ -566,7 +596,7 @@ func main() {
 		os.Exit(2)
 	}
 	enc := json.NewEncoder(of)
-	for i := 0; i < *n; i++ {
+	for i := *from; i < *n; i++ {
 		h, err := runHistory(*kind, *seed*1000+int64(i), *clients, *ops, time.Duration(*boundMs)*time.Millisecond)
 		if err != nil {
 			fmt.Fprintf(os.Stderr, "storerun: history %d: %v\n", i, err)
